@@ -40,7 +40,7 @@ func (sos *ShareOrSigns) Validate(mpks *Mpks, publicKeys map[string]string, sche
 	var keys []string
 	for key, share := range sos.ShareOrSigns {
 		if share == nil {
-			continue
+			return nil, false
 		}
 		if share.Sign != "" {
 			signatureScheme := scheme
